@@ -184,6 +184,7 @@ def h5_export(sc, d, rep, tier, export=True, invs=None):
         rep.add_tlc("Html5/" + name, res)
         model_violations(rep, res, "Html5/" + name)
         got = res.printed()
+        res.out = ""
         rep.part("Html5/" + name, alphabet=show(alpha), maxlen=maxlen, prefixes=[show(p) for p in prefixes],
                  contexts=list(ctxs), behaviours=len(got))
         beh += got
@@ -1168,6 +1169,7 @@ def sqli_export(sc, d, rep, tier, only=None, export=True):
         rep.add_tlc("Sqli/" + name, res)
         model_violations(rep, res, "Sqli/" + name)
         got = res.printed()
+        res.out = ""                 # (the raw output of a large run is gigabytes: not kept once parsed)
         rep.part("Sqli/" + name, level=level, units=[show(vgen.b(u)) for u in un][:40], maxlen=maxlen,
                  openers=openers, flags=list(flags), behaviours=len(got))
         for g in got:
